@@ -199,12 +199,13 @@ func dedupDelta(ds []delta) []delta {
 }
 
 func runC08(e *Engine, r *Report, tier string) {
-	r.Explanation = "C08, structural necessary conditions. R1 (signed-operation balance): for every conversion routine — an fx-core function that, with its fx-core callees inlined, performs both a bank value operation and an ERC-20 value operation — on every success path the change of the coin escrow (erc20 module account and the wrapper contract) equals the change of the ERC-20 supply, and the change of the module's ERC-20 escrow equals the change of the coin supply (operations: account->escrow +1, escrow->account -1, mint coins +escrow +supply, burn coins -escrow -supply, token mint/burn, token transfer to/from the module); every operation's amount is rooted in the routine's single amount parameter; coins are taken only from the sender parameter and paid only to the receiver parameter; R2 no keeper-level EVM execution (a fresh committed StateDB) is reachable from the native-action closure of a precompile — token calls under a live EVM must go through the running EVM; R3 the pair record and its by-denom / by-contract indexes (erc20 0x01,0x02,0x03) are written and deleted only together, a lone write of 0x01 only re-stores a pair that was just read; R4 the blocked-address test of a conversion is applied to the message's receiver; R5 every classifier of the IBC-voucher namespace (HasPrefix/TrimPrefix with a constant starting with `ibc`) tests the full prefix `ibc/` — siblings that decide lock-vs-burn and the backing escrow must agree on what a voucher is; R6 an index entry (by-contract, by-denom, alias) that is deleted because a lookup found it is deleted under the very key that was looked up. Not decided: contract bytecode, ERC-20 balances summing to supply, arbitrary histories."
+	r.Explanation = "C08, structural necessary conditions. R1 (signed-operation balance): for every conversion routine — an fx-core function that, with its fx-core callees inlined, performs both a bank value operation and an ERC-20 value operation — on every success path the change of the coin escrow (erc20 module account and the wrapper contract) equals the change of the ERC-20 supply, and the change of the module's ERC-20 escrow equals the change of the coin supply (operations: account->escrow +1, escrow->account -1, mint coins +escrow +supply, burn coins -escrow -supply, token mint/burn, token transfer to/from the module); every operation's amount is rooted in the routine's single amount parameter; coins are taken only from the sender parameter and paid only to the receiver parameter; R2 no keeper-level EVM execution (a fresh committed StateDB) is reachable from the native-action closure of a precompile — token calls under a live EVM must go through the running EVM; R3 the pair record and its by-denom / by-contract indexes (erc20 0x01,0x02,0x03) are written and deleted only together, a lone write of 0x01 only re-stores a pair that was just read; R4 the blocked-address test of a conversion is applied to the message's receiver; R5 every classifier of the IBC-voucher namespace (HasPrefix/TrimPrefix with a constant starting with `ibc`) tests the full prefix `ibc/` — siblings that decide lock-vs-burn and the backing escrow must agree on what a voucher is; R6 an index entry (by-contract, by-denom, alias) that is deleted because a lookup found it is deleted under the very key that was looked up; R7 the error of every bank / ERC-20 value operation of a conversion routine is consumed (tested with a clean failing branch, returned or wrapped) on every path from the call — an error that a later assignment overwrites before the test is reported. Not decided: contract bytecode, ERC-20 balances summing to supply, arbitrary histories."
 	r.Rule("R1", "per success path: Δescrow = ΔtokenSupply and ΔtokenEscrow = ΔcoinSupply; single amount; sender debited, receiver credited", 5, "conversion routines found by their operations")
 	r.Rule("R2", "no nested keeper-level EVM under a precompile native action", 1, "ExecuteNativeAction closures")
 	r.Rule("R3", "token-pair record and indexes co-written", 3, "writers of erc20:01/02/03")
 	r.Rule("R4", "blocked-address test applies to the receiver", 2, "conversion handlers")
 	r.Rule("R6", "an index entry deleted because a lookup found it is deleted under the key that was looked up", 1, "lookup-guarded deletes of erc20 index families")
+	r.Rule("R7", "the error of every leg (bank / ERC-20 value operation) of a conversion routine is propagated on every path", 8, "value operations of the conversion routines")
 	{
 		nsites := 0
 		for _, fn := range e.Funcs {
@@ -376,6 +377,19 @@ func runC08(e *Engine, r *Report, tier string) {
 		// if a caller in the same package already inlines this function as part of a pair, still check it on its own only when balanced
 		nconv++
 		k := e.FnKey(fn)
+		// R7: the balance above is per *success* path, so a failed leg must end the routine: the error of every value
+		// operation is propagated on every path (not overwritten by a later call, not tested on some paths only)
+		for _, op := range ops {
+			if op.Parent() != fn && op.Parent().Parent() != fn {
+				continue
+			}
+			ck := k + " -> " + callName(op) + " error"
+			if ok, why := errorHandled(op); ok {
+				r.Ok("R7", ck, e.InstrPos(op), "error propagated on every path")
+			} else {
+				r.Fail("R7", ck, e.InstrPos(op), "a leg of the conversion can fail without failing the conversion ("+why+"): the other legs still run, so value moves on one side of the books only")
+			}
+		}
 		ds := e.pathDeltas(fn, memo, 0)
 		if len(ds) == 0 {
 			r.Undecided("R1", k+" balance", e.Pos(fn.Pos()), "no success path enumerated")
